@@ -146,7 +146,7 @@ def post_to_fst(ref, self, args, kwargs, result, exc):
         core.report(PROP, "to_fst", "exception:" + type(exc).__name__, None, tags)
         return
     res = extract.fst(result)
-    for w in rn.all_words(sorted(ref.alpha, key=repr)[:2] + ["zz_foreign"], N):
+    for w in rn.all_words(sorted(ref.alpha, key=repr)[-2:] + ["zz_foreign"], N):
         exp = {tuple(w)} if ref.accepts(w) else set()
         try:
             got = res.relation(w, cap=3000)
@@ -185,7 +185,7 @@ def plan(tier, rng, sl, nslices, stats):
             if b:
                 b["trans"] = b["trans"][:3]
         if i % 4 == 0:
-            c["fa"] = gfa.random_case(rng, max_states=3, max_syms=2, vcs=["int", "str"])
+            c["fa"] = gfa.random_case(rng, max_states=3, max_syms=4, vcs=["int", "str", "binary"])
         yield c
 
 
@@ -238,6 +238,6 @@ def run_case(c, stats):
                 ref = extract.fa(fa)
                 rt = extract.fst(t)
                 if not rt.eps_cycle_writes():
-                    for w in rn.all_words(sorted(ref.alpha, key=repr)[:2], 2):
+                    for w in rn.all_words(sorted(ref.alpha, key=repr)[-2:], 2):
                         judge_translate(t, rt, w, sub="translate_of_to_fst")
     return nt
